@@ -97,7 +97,7 @@ func cmdCheck(args []string) int {
 		if *prop != "" && !c.Props[*prop] {
 			continue
 		}
-		if c.Assumed || c.Mode == "pure" || c.Mode == "opaque" {
+		if c.Assumed || (c.Mode == "pure" && len(c.Ensures) == 0) || c.Mode == "opaque" {
 			continue
 		}
 		if *only != "" && !strings.HasSuffix(k, *only) {
@@ -146,6 +146,8 @@ func propConfig(id, verifDir string) PropConfig {
 	switch id {
 	case "C09":
 		return PropConfig{Pkgs: []string{"./util"}, ExtSpecs: ext}
+	case "C06":
+		return PropConfig{Pkgs: []string{"./util", "./ytypes"}, ExtSpecs: ext}
 	}
 	return PropConfig{Pkgs: []string{"./util"}, ExtSpecs: ext}
 }
